@@ -76,8 +76,19 @@ template <class Q, class T> struct has_ratio<Q, T, std::enable_if_t<std::is_same
 template <class Q, class = void> struct has_xyz : std::false_type {};
 template <class Q> struct has_xyz<Q, std::void_t<decltype(std::declval<const Q&>().x().Value())>> : std::true_type {};
 
+// numbers of a printed quantity, after removing the unit abbreviation
+inline int numbers_of(std::string s, const std::string& abbr, long double* out, int cap) {
+  size_t p = abbr.empty() ? std::string::npos : s.rfind(abbr); if (p != std::string::npos) s.erase(p, abbr.size());
+  int n = 0; size_t i = 0;
+  while (i < s.size()) { unsigned char ch = s[i]; bool start = (isdigit(ch) || ((ch == '-' || ch == '+') && i + 1 < s.size() && isdigit((unsigned char)s[i + 1])));
+    bool delim = i == 0 || !(isalnum((unsigned char)s[i - 1]) || s[i - 1] == '_' || s[i - 1] == '^' || s[i - 1] == '.');
+    if (start && delim) { char* end; long double v = strtold(s.c_str() + i, &end); if (end != s.c_str() + i) { if (n < cap) out[n] = v; n++; i = end - s.c_str(); continue; } }
+    i++; }
+  return n; }
+template <class Ad, class = void> struct ad_factor { static constexpr long value = 0; };
+template <class Ad> struct ad_factor<Ad, std::void_t<decltype(Ad::factor)>> { static constexpr long value = Ad::factor; };
 struct Step { std::string act, dst, a, b; long n; std::vector<std::vector<long>> st; std::vector<int> defd; std::vector<long> obs; };
-struct Behaviour { int ncomp; std::string caps; std::vector<Step> steps; std::vector<std::string> needs; };
+struct Behaviour { int ncomp; long factor = 0; std::string caps; std::vector<Step> steps; std::vector<std::string> needs; };
 struct Suite { std::vector<Behaviour> bs; std::vector<std::vector<std::vector<long>>> patterns; /* [ncomp][k] */ };
 
 inline int regidx(const std::string& r) { return r == "r1" ? 0 : r == "r2" ? 1 : r == "r3" ? 2 : -1; }
@@ -103,9 +114,10 @@ template <class Ad> struct Replayer {
   // returns index of first mismatching step or -1; -2 if skipped
   static int run(const Behaviour& b, const Suite& s, std::string& why) {
     for (auto& n : b.needs) if (!supports(n)) return -2;
+    if (b.factor != 0 && b.factor != ad_factor<Ad>::value) return -2;
     std::optional<Q> r[3];
     for (size_t k = 0; k < b.steps.size(); k++) {
-      const Step& st = b.steps[k]; int d = regidx(st.dst), a = regidx(st.a), bb = regidx(st.b); T n = (T)st.n; std::vector<T> obs;
+      const Step& st = b.steps[k]; int d = regidx(st.dst), a = regidx(st.a), bb = regidx(st.b); T n = (T)st.n; std::vector<T> obs; bool snap_obs = false;
       const auto& pats = s.patterns[N];
       if (st.act == "Construct") r[d] = from(pats[st.n - 1]);
       else if (st.act == "Zero") { if constexpr (has_zero<Q, T>::value) r[d] = Q::Zero(); }
@@ -124,6 +136,14 @@ template <class Ad> struct Replayer {
       else if (st.act == "DivEq") { if constexpr (has_diveq<Q, T>::value) *r[a] /= n; }
       else if (st.act == "SetValue") { if constexpr (has_set<Q, T>::value) r[d]->SetValue(from(pats[st.n - 1]).Value()); }
       else if (st.act == "MutableWrite") { if constexpr (has_mutable<Q, T>::value) r[d]->MutableValue() = from(pats[st.n - 1]).Value(); }
+      else if (st.act == "ConstructIn" || st.act == "CreateIn" || st.act == "ReadIn" || st.act == "StaticReadIn" || st.act == "PrintIn") {
+        if constexpr (ad_factor<Ad>::value != 0) { snap_obs = true;
+          using V = std::decay_t<decltype(std::declval<const Q&>().Value())>; T c[9]; if (st.n >= 1) for (int i = 0; i < N; i++) c[i] = (T)pats[st.n - 1][i];
+          if (st.act == "ConstructIn") { V raw = rawmake(c, (V*)nullptr); r[d] = Q(raw, Ad::unit); }
+          else if (st.act == "CreateIn") { V raw = rawmake(c, (V*)nullptr); r[d] = Q::template Create<Ad::unit>(raw); }
+          else if (st.act == "ReadIn") { auto v = r[a]->Value(Ad::unit); T x[9]; put(v, x); for (int i = 0; i < N; i++) obs.push_back(x[i]); }
+          else if (st.act == "StaticReadIn") { auto v = r[a]->template StaticValue<Ad::unit>(); T x[9]; put(v, x); for (int i = 0; i < N; i++) obs.push_back(x[i]); }
+          else { long double got[12]; int k2 = numbers_of(r[a]->Print(Ad::unit), std::string(PhQ::Abbreviation(Ad::unit)), got, 12); if (k2 != N) { why = "PrintIn: wrong number of values printed"; return (int)k; } for (int i = 0; i < N; i++) obs.push_back((T)got[i]); } } }
       else if (st.act == "ReadValue") { T x[9]; getc(*r[a], x); for (int i = 0; i < N; i++) obs.push_back(x[i]); }
       else if (st.act == "Serialize") {
         std::string p = r[a]->Print(), j = r[a]->JSON(), x = r[a]->XML(), y = r[a]->YAML(); std::ostringstream os; os << *r[a];
@@ -134,7 +154,10 @@ template <class Ad> struct Replayer {
         if (!st.defd[i]) { if (r[i].has_value()) { why = "register defined unexpectedly"; return (int)k; } continue; }
         if (!r[i].has_value() || !same(*r[i], st.st[i])) { why = st.act + ": register r" + std::to_string(i + 1) + " differs from the specification state"; return (int)k; } }
       if (obs.size() != st.obs.size()) { why = st.act + ": observation arity"; return (int)k; }
-      for (size_t i = 0; i < obs.size(); i++) if (!(obs[i] == (T)st.obs[i])) { why = st.act + ": observation differs"; return (int)k; }
+      for (size_t i = 0; i < obs.size(); i++) { T want = (T)st.obs[i]; bool okv = obs[i] == want;
+        // a value read back in a unit may pass through an inexact reciprocal factor: it must snap to the specification's integer within 4 ulps
+        if (!okv && snap_obs) okv = std::fabs(obs[i] - want) <= 4 * std::numeric_limits<T>::epsilon() * std::fabs(want);
+        if (!okv) { why = st.act + ": observation differs"; return (int)k; } }
     }
     return -1; }
 };
@@ -341,7 +364,7 @@ inline bool load_suite(const char* path, Suite& s) {
   while (getline(&line, &cap, f) > 0) {
     std::istringstream ss(line); std::string tag; ss >> tag;
     if (tag == "P") { int n; ss >> n; std::vector<long> v; nums(ss, v); s.patterns[n].push_back(v); }
-    else if (tag == "B") { if (open) s.bs.push_back(cur); cur = Behaviour(); open = true; ss >> cur.ncomp; std::string nd; while (ss >> nd) cur.needs.push_back(nd); }
+    else if (tag == "B") { if (open) s.bs.push_back(cur); cur = Behaviour(); open = true; ss >> cur.ncomp >> cur.factor; std::string nd; while (ss >> nd) cur.needs.push_back(nd); }
     else if (tag == "S") { Step st; ss >> st.act >> st.dst >> st.a >> st.b >> st.n; if (st.dst == "-") st.dst = ""; if (st.a == "-") st.a = ""; if (st.b == "-") st.b = "";
       st.st.resize(3); st.defd.assign(3, 0); for (int i = 0; i < 3; i++) { std::string tok; std::streampos p = ss.tellg(); ss >> tok; if (tok == "U") { st.defd[i] = 0; } else { st.defd[i] = 1; std::istringstream t(tok); std::string x; while (std::getline(t, x, ',')) st.st[i].push_back(atol(x.c_str())); } (void)p; }
       nums(ss, st.obs); cur.steps.push_back(st); }
